@@ -20,6 +20,7 @@ Oracle-only kinds (the property text evaluated on the implementation's outputs):
 import ast
 import itertools
 import math
+import random
 from fractions import Fraction as F
 
 import numpy as np
@@ -157,10 +158,10 @@ CIRCLE = [(1.0, 0.0), (0.6, 0.8), (-0.8, 0.6), (-0.6, -0.8), (5 / 13, 12 / 13), 
           (8 / 17, -15 / 17), (-1.0, 0.0), (0.8, -0.6), (-5 / 13, -12 / 13), (7 / 25, 24 / 25), (-24 / 25, 7 / 25)]
 
 
-def planar2d(rng, sh):
+def planar2d(rng, sh, flavour=None):
     """in-plane textures (one component exactly zero everywhere): spin spirals / XY configurations with
     neighbour angles around 120 degrees (coplanar triangles spread over more than a half circle)"""
-    flavour = rng.choice(["spiral120", "spiral120", "circle", "angles", "spiral-generic"])
+    flavour = flavour or rng.choice(["spiral120", "spiral120", "circle", "angles", "spiral-generic"])
     a0, q0, q1 = rng.uniform(0, 6.28), rng.choice([2.094, 2.2, 1.9, -2.094, 2.6]), rng.choice([0.0, 2.094, -2.3, 0.4])
     arr = np.zeros((*sh, 3))
     plane = rng.choice([(0, 1), (0, 1), (1, 2), (0, 2)])
@@ -212,67 +213,163 @@ def field_case_2d(rng, kind, big=False):
 
 
 # ------------------------------------------------------------------ generation
-def generate(rng, tier):
-    q = tier == "quick"
+# number of cases per stream: directed core (identical in every run, tier and seed), quick, thorough
+COUNTS = {
+    #                core  quick  thorough
+    "tcd_cont":      (20,   40,   420),
+    "tcd_bl":        (20,   40,   420),
+    "charge":        (10,   26,   260),
+    "angle":         (24,   40,   420),
+    "emergent":      (4,     7,    90),
+    "bps":           (4,     5,    70),
+    "demagN":        (3,     2,    20),
+    "meta":          (14,   30,   360),
+    "integer":       (4,     5,    50),
+    "hedgehog":      (2,     2,    26),
+    "demag":         (8,     3,    30),
+    "demagseq":      (3,     3,    26),
+    "quarter":       (10,   12,   130),
+    "planar":        (10,   12,   130),
+    "names":         (3,     0,     6),
+    "refuse":        (13,   20,   130),
+    "intdtype":      (6,     3,    30),
+}
+
+
+def planar_case(rng, flavour=None):
+    c = field_case_2d(rng, "planar", big=True)
+    c.update(vals=[g.qs(x) for x in planar2d(rng, c["sh"], flavour).reshape(-1).tolist()], tex="planar", dims=None,
+             bc=rng.choice(["", "", "x", "xy"]))
+    return c
+
+
+def mask_cases(rng, sh, nmax=None):
+    """all (or nmax sampled) validity masks of a small grid for the Berg-Luescher neighbour logic"""
+    L = sh[0] * sh[1]
+    base = field_case_2d(rng, "tcd")
+    arr = smooth2d(rng, sh)
+    masks = list(itertools.product([True, False], repeat=L))
+    if nmax is not None and len(masks) > nmax:
+        masks = rng.sample(masks, nmax)
+    return [dict(base, sh=sh, vals=[g.qs(x) for x in arr.reshape(-1).tolist()], valid=list(mask),
+                 method="berg-luescher", tex="smooth-mask", bc="", dims=None) for mask in masks]
+
+
+def streams(rng, col):
+    n = {k: v[col] for k, v in COUNTS.items()}
     cases = []
-    # Coq-checked structure cases
-    for _ in range(70 if q else 500):
+    for _ in range(n["tcd_cont"]):
         c = field_case_2d(rng, "tcd")
         c["method"] = "continuous"
         cases.append(c)
-    for _ in range(70 if q else 500):
+    for _ in range(n["tcd_bl"]):
         c = field_case_2d(rng, "tcd")
         c["method"] = "berg-luescher"
         cases.append(c)
-    # all 2^L masks of a small grid for the Berg-Luescher neighbour logic (3x2 and 2x3 grids)
-    for sh in ([3, 2], [2, 3], [3, 3] if not q else [1, 4]):
-        L = sh[0] * sh[1]
-        base = field_case_2d(rng, "tcd")
-        arr = smooth2d(rng, sh)
-        masks = list(itertools.product([True, False], repeat=L))
-        if L > 6:
-            masks = rng.sample(masks, 128)
-        for mask in masks:
-            c = dict(base, sh=sh, vals=[g.qs(x) for x in arr.reshape(-1).tolist()], valid=list(mask),
-                     method="berg-luescher", tex="smooth-mask", bc="")
-            cases.append(c)
-    for _ in range(40 if q else 300):
+    for _ in range(n["charge"]):
         c = field_case_2d(rng, "charge")
         c["method"] = rng.choice(["continuous", "berg-luescher"])
         c["absolute"] = rng.random() < 0.5
         cases.append(c)
-    for _ in range(70 if q else 500):
+    for _ in range(n["angle"]):
         cases.append(angle_case(rng))
-    for _ in range(12 if q else 100):
+    for _ in range(n["emergent"]):
         cases.append(field_case_3d(rng, "emergent"))
-    for _ in range(10 if q else 80):
+    for _ in range(n["bps"]):
         cases.append(field_case_3d(rng, "bps"))
-    for _ in range(4 if q else 24):
+    for _ in range(n["demagN"]):
         cases.append(demagN_case(rng))
-    # oracle-only
-    for _ in range(50 if q else 400):
+    for _ in range(n["meta"]):
         cases.append(meta_case(rng))
-    for _ in range(10 if q else 60):
+    for _ in range(n["integer"]):
         cases.append(integer_case(rng))
-    for _ in range(5 if q else 30):
+    for _ in range(n["hedgehog"]):
         cases.append(hedgehog_case(rng))
-    for k in range(8 if q else 40):
-        cases.append(demag_case(rng, k))
-    for k in range(6 if q else 30):
-        cases.append(demagseq_case(rng, k))
-    for k in range(24 if q else 150):
+    for k in range(n["demag"]):
+        cases.append(demag_case(rng, k if col == 0 else 8 + k))
+    for k in range(n["demagseq"]):
+        cases.append(demagseq_case(rng, k if col == 0 else 3 + k))
+    for _ in range(n["quarter"]):
         cases.append(quarter_case(rng))
-    for k in range(24 if q else 150):
-        c = field_case_2d(rng, "planar", big=True)
-        c.update(vals=[g.qs(x) for x in planar2d(rng, c["sh"]).reshape(-1).tolist()], tex="planar", dims=None,
-                 bc=rng.choice(["", "", "x", "xy"]))
-        cases.append(c)
-    for k in range(3 if q else 9):
+    for _ in range(n["planar"]):
+        cases.append(planar_case(rng))
+    for k in range(n["names"]):
         cases.append(dict(kind="names", variant=k % 3, seed=rng.randint(0, 10**6)))
-    for k in range(36 if q else 150):
+    for k in range(n["refuse"]):
         cases.append(refuse_case(rng, k))
-    rng.shuffle(cases)      # balances the cost of the Coq shards
+    for k in range(n["intdtype"]):
+        cases.append(intdtype_case(rng, k))
     return cases
+
+
+def hand_angle(vecs, ax=0, units="rad", dims=None):
+    n = len(vecs)
+    return dict(kind="angle", sh=[n], cell=["1/2"], p1=["-1/1"], ax=ax, units=units,
+                vals=[g.qs(x) for v in vecs for x in v], valid=None, tex="directed", dims=dims, units_=None)
+
+
+def directed_core():
+    """seed-independent cases: one small group per mechanism that a seeded change of /repo once slipped
+    through (seeded/C19-*/meta.json); fixed Random(424242) or hand-written; identical in every run"""
+    R = random.Random(424242)
+    core = streams(R, 0)
+    # b1 / c3: neighbour and triangle structure of the lattice density: ALL 64 masks of a 3x2 grid
+    core += mask_cases(R, [3, 2])
+    # b2 / c1: exactly antiparallel and exactly parallel neighbours, unit and near-unit lengths, float32
+    u = np.array([0.6, 0.8, 0.0])
+    w = np.array([1 / 3, 2 / 3, 2 / 3])
+    f32 = lambda v: np.asarray(v, dtype=np.float32).astype(float)      # noqa: E731
+    core += [hand_angle([u, -u, u, u * (1 - 4e-6), u * (1 + 8e-6), -u * (1 - 1e-5)]),
+             hand_angle([w, w * (1 - 4e-6), w * (1 - 4e-6), f32(w), f32(w), -f32(w)], units="deg"),
+             hand_angle([u * (1 - 2.0 ** -18)] * 4 + [-u * (1 - 2.0 ** -18)], dims=["V"]),
+             hand_angle([(1.0, 0.0, 0.0), (-1.0, 0.0, 0.0), (0.0, 3.0, 0.0), (0.0, -3.0, 0.0)])]
+    # b2: sharp 180-degree walls whose normalised dot product rounds below -1 (and above +1)
+    core += [hand_angle([(1.0, 1.0, 1.0), (-1.0, -1.0, -1.0), (1.0, 1.0, 1.0), (1.0, 1.0, 1.0)]),
+             hand_angle([(1.0, 2.0, 2.0), (-1.0, -2.0, -2.0), (2.0, 3.0, 6.0), (-2.0, -3.0, -6.0), (-2.0, -3.0, -6.0)]),
+             hand_angle([(0.3, -0.7, 1.1), (-0.3, 0.7, -1.1), (-0.3, 0.7, -1.1), (5.0, 5.0, -5.0), (-5.0, -5.0, 5.0)],
+                        units="deg")]
+    # a2 / e1: hedgehogs of non-unit length on non-cubic samples, counted along every direction
+    for sh, length in (([8, 8, 14], 0.5), ([13, 8, 8], 8e5), ([8, 12, 8], 3.0)):
+        core.append(dict(kind="hedgehog", sh=sh, cell=["1/1", "1/1", "1/1"], off=[g.qs(0.37), g.qs(0.13), g.qs(-0.21)],
+                         length=g.qs(length), unit=None, shift=["0/1", "-3/2", "5/1"]))
+    # a1: coarse rough textures (triangles with 1 + d12 + d23 + d31 < 0)
+    core += [quarter_case(R) for _ in range(4)]
+    # d1: coplanar triangles spread over more than a half circle (exact 3-sublattice order), c3: rough quarter
+    core += [planar_case(R, "spiral120") for _ in range(4)] + [planar_case(R, "circle") for _ in range(2)]
+    # d3 / c2 / a3 / b3: single-cell first axis, anisotropic cells with dx != dy, repeated n with other cells
+    for sh, cell in (([1, 4, 2], [1, 2, 3]), ([3, 2, 2], [2, 1, F(1, 2)]), ([2, 2, 2], [1, 1, 1])):
+        core.append(dict(kind="demag", sh=sh, cell=[g.qs(x) for x in cell], M=g.qs(8e5), slow=True))
+    core += [dict(kind="demagN", sh=[1, 2, 1], cell=["1/1", "2/1", "3/1"]),
+             dict(kind="demagN", sh=[2, 1, 1], cell=["3/1", "1/1", "2/1"])]
+    for c in core:
+        c["core"] = True
+    R.shuffle(core)
+    return core
+
+
+def generate(rng, tier):
+    q = tier == "quick"
+    rand = streams(rng, 1 if q else 2)
+    # further validity-mask sweeps of the Berg-Luescher neighbour logic
+    rand += mask_cases(rng, [2, 3]) + mask_cases(rng, [1, 4] if q else [3, 3], 128)
+    rng.shuffle(rand)      # balances the cost of the Coq shards
+    return directed_core() + rand
+
+
+def intdtype_case(rng, k):
+    """3-component fields created with an explicit INTEGER dtype and large components (squares overflow the
+    dtype): every tool must give what it gives for the float64 twin"""
+    dt, amp = [("int16", 3000), ("int32", 800000), ("int64", 4 * 10**9), ("int32", 2 * 10**9), ("int16", 200),
+               ("int64", 10**15)][k % 6]
+    sh2 = [rng.randint(3, 6), rng.randint(3, 6)]
+    a2 = smooth2d(rng, sh2) if rng.random() < 0.6 else unitize(np.array([rand_vec(rng) for _ in range(sh2[0] * sh2[1])]).reshape(*sh2, 3) + 0.01)
+    sh3 = [rng.randint(3, 5) for _ in range(3)]
+    centre = [k_ / 2 + rng.choice([0.13, -0.21, 0.37]) for k_ in sh3]
+    a3 = unitize(hedgehog_arr(sh3, [1.0, 1.0, 1.0], centre))
+    return dict(kind="intdtype", dtype=dt, sh2=sh2, sh3=sh3, cell2=[g.qs(dyadic_cell(rng)) for _ in range(2)],
+                cell3=[g.qs(dyadic_cell(rng)) for _ in range(3)],
+                vals2=[int(round(x * amp)) for x in a2.reshape(-1).tolist()],
+                vals3=[int(round(x * amp)) for x in a3.reshape(-1).tolist()], dir=rng.randrange(3))
 
 
 def angle_case(rng):
@@ -707,6 +804,10 @@ def run_angle(c, rec):
         rec["oracle"].append("angle-on-single-cell-direction-accepted")
     o = f.orientation.array
     out = r.array.reshape(-1)
+    if not np.all(np.isfinite(out)):
+        rec["oracle"].append("angle-not-finite")
+        rec.update(obs=dict(nonfinite=True), key=f'angle/nonfinite/{tuple(sh)}/{ax}')
+        return
     want_sh = list(sh)
     want_sh[ax] -= 1
     # property clauses on the implementation's output
@@ -725,7 +826,7 @@ def run_angle(c, rec):
     if JUDGE_NAMES and not keeps:
         rec["oracle"].append("angle-mesh-drops-dimension-names-or-units")
     top = 180.0 if deg else math.pi
-    if out.size and (out.min() < 0 or out.max() > top * (1 + 1e-15)):
+    if out.size and not (np.all(out >= 0) and np.all(out <= top * (1 + 1e-15))):      # NaN-safe
         rec["oracle"].append("angle-outside-0-pi")
     # independent angle (atan2 form) between the unit vectors
     sl1 = [slice(None)] * len(sh)
@@ -741,7 +842,7 @@ def run_angle(c, rec):
             ref = math.atan2(np.linalg.norm(np.cross(a, b)), float(np.dot(a, b)))
             if deg:
                 ref = math.degrees(ref)
-            if abs(got - ref) > 1e-6 * (180 if deg else 1):
+            if not abs(got - ref) <= 1e-6 * (180 if deg else 1):
                 rec["oracle"].append("angle-differs-from-angle-between-unit-vectors")
     # the angle between the exactly normalised vectors, from the raw input (independent of Field.orientation)
     raw = f.array
@@ -1129,7 +1230,9 @@ def run_quarter(c, rec):
     f = build(c)
     sh = c["sh"]
     base = both_charges(f)
-    _, risky, _ = bl_table(f.orientation.array, sh, np.array(c["valid"], dtype=bool).reshape(*sh))
+    _, risky, ang_bad = bl_table(f.orientation.array, sh, np.array(c["valid"], dtype=bool).reshape(*sh))
+    if ang_bad:
+        rec["oracle"].append("bl-angle-differs-from-solid-angle-over-4pi")
     dA = fl(c["cell"][0]) * fl(c["cell"][1])
     obs = dict(base={m: repr(base[m][1]) for m in base}, risky=risky)
     for k in (1, 2, 3, 4, -1):
@@ -1191,6 +1294,49 @@ def run_planar(c, rec):
                 if far(other[m][1], base[m][1], 1e-9) or far(np.rot90(base[m][0], k=k), other[m][0], 1e-9 / dA):
                     rec["oracle"].append(f"quarter-turn-changes-planar-charge-{m}")
     rec.update(obs=obs, key=f'planar/{tuple(sh)}/{all(c["valid"])}/{c.get("bc", "")}', nontrivial=True)
+
+
+def run_intdtype(c, rec):
+    dt = getattr(np, c["dtype"])
+    obs = {}
+
+    def twin(sh, cell, vals):
+        cf = [fl(x) for x in cell]
+        mesh = df.Mesh(p1=[0.0] * len(sh), p2=[k * h for k, h in zip(sh, cf)], n=sh)
+        arr = np.array(vals, dtype=dt).reshape(*sh, 3)
+        return (df.Field(mesh, nvdim=3, value=arr, dtype=dt), df.Field(mesh, nvdim=3, value=arr.astype(float)))
+
+    def same(name, fn, rel=1e-9):
+        st, a = attempt(lambda: fn(fi))
+        st0, b = attempt(lambda: fn(ff))
+        if st0 != "ok":
+            return
+        if st != "ok":
+            rec["oracle"].append(f"integer-typed-field-refused-{name}")
+            return
+        scale = float(np.max(np.abs(np.asarray(b, dtype=float)))) + 1e-300
+        ok = np.shape(a) == np.shape(b) and not far(np.asarray(a, dtype=float), np.asarray(b, dtype=float), rel * scale + 1e-12)
+        obs[name] = bool(ok)
+        if not ok:
+            rec["oracle"].append(f"integer-typed-field-differs-from-float64-twin-{name}")
+    fi, ff = twin(c["sh2"], c["cell2"], c["vals2"])
+    same("orientation-is-unit", lambda f: f.orientation.norm.array)
+    for m in ("continuous", "berg-luescher"):
+        same(f"density-{m}", lambda f: dft.topological_charge_density(f, method=m).array)
+        same(f"charge-{m}", lambda f: dft.topological_charge(f, method=m))
+    for d in "xy":
+        same(f"angle-{d}", lambda f: dft.neighbouring_cell_angle(f, direction=d).array, rel=1e-7)
+    fi, ff = twin(c["sh3"], c["cell3"], c["vals3"])
+    d = "xyz"[c["dir"]]
+    same("angle-3d", lambda f: dft.neighbouring_cell_angle(f, direction=d).array, rel=1e-7)
+    same("max-angle", lambda f: dft.max_neighbouring_cell_angle(f).array, rel=1e-7)
+    same("emergent", lambda f: dft.emergent_magnetic_field(f).array, rel=1e-6)
+    same("emergent-of-orientation", lambda f: dft.emergent_magnetic_field(f.orientation).array, rel=1e-6)
+    st, r1 = attempt(lambda: dft.count_bps(fi, direction=d))
+    st0, r0 = attempt(lambda: dft.count_bps(ff, direction=d))
+    if st0 == "ok" and (st != "ok" or r1 != r0):
+        rec["oracle"].append("integer-typed-field-differs-from-float64-twin-count-bps")
+    rec.update(obs=obs, key=f'intdtype/{c["dtype"]}/{tuple(c["sh2"])}/{tuple(c["sh3"])}', nontrivial=True)
 
 
 def run_names(c, rec):
